@@ -272,7 +272,9 @@ def gen_model(rng):
                                "role": str(rng.choice(["none", "param", "obs"])), "per_obs": bool(rng.random() < 0.5)}})
     user = {}
     r = rng.random()
-    if r < 0.12:
+    if r < 0.06:
+        user["log_lik"] = "array"
+    elif r < 0.12:
         user["log_lik"] = True
     elif r < 0.24:
         user["log_prior"] = True
@@ -358,7 +360,12 @@ def build(desc, x64=False, flip_per_obs=None, initial=None):
         gb.add(o)
     b = Built()
     b.user_nodes = {}
-    if desc["user"].get("log_lik"):
+    if desc["user"].get("log_lik") == "array":
+        # a per-observation (array-valued) user log-likelihood: must be forwarded unchanged, not reduced
+        n_ = lsl.Calc(lambda y: -jnp.abs(y) * 0.5, objs["y"], _name="user_ll")
+        gb.log_lik_node = n_
+        b.user_nodes["log_lik"] = n_
+    elif desc["user"].get("log_lik"):
         n_ = lsl.Calc(lambda y: -jnp.sum(jnp.abs(y)) * 0.5, objs["y"], _name="user_ll")
         gb.log_lik_node = n_
         b.user_nodes["log_lik"] = n_
@@ -379,7 +386,9 @@ def build(desc, x64=False, flip_per_obs=None, initial=None):
     return b
 
 
-def user_value(which, values):
+def user_value(which, values, kind=True):
+    if which == "log_lik" and kind == "array":
+        return -np.abs(np.asarray(values["y"], np.float64)) * 0.5
     if which == "log_lik":
         return -np.sum(np.abs(values["y"])) * 0.5
     if which == "log_prior":
